@@ -261,50 +261,83 @@ def _literal_alternatives(e: ast.AST, f_=None, _depth: int = 0):
     return [e]
 
 
-def _lambda_test(e: ast.AST, src: str):
+def _resolve_name(m, ps, e: ast.AST, fi, depth: int = 0):
+    """(expression, function it is written in) a name stands for: the value of a local assigned once, or - for a
+    parameter of a private helper of the scan with one call site - the actual argument in the caller."""
+    from ..lib import call_sites_of
+
+    while isinstance(e, ast.Name) and depth < 6:
+        depth += 1
+        defs = [n for n in own_nodes(fi) if isinstance(n, ast.Assign) and len(n.targets) == 1 and isinstance(n.targets[0], ast.Name) and n.targets[0].id == e.id]
+        stores = [n for n in own_nodes(fi) if isinstance(n, ast.Name) and n.id == e.id and isinstance(n.ctx, ast.Store)]
+        if len(defs) == 1 and len(stores) == 1:
+            e = defs[0].value
+            continue
+        if fi is not ps and e.id in fi.pos_params and not stores:
+            sites = call_sites_of(m, fi)
+            if len(sites) != 1:
+                break
+            caller, call, skip = sites[0]
+            i = fi.pos_params.index(e.id) - skip
+            actual = call.args[i] if 0 <= i < len(call.args) and not any(isinstance(x, ast.Starred) for x in call.args) else next((k.value for k in call.keywords if k.arg == e.id), None)
+            if actual is None:
+                break
+            e, fi = actual, caller
+            continue
+        break
+    return e, fi
+
+
+def _lambda_test(m, ps, e: ast.AST, fi):
     """True when e reads "the callable is a lambda", False when it reads "is not a lambda", None otherwise."""
+    src = ps.pos_params[0]
     if isinstance(e, ast.UnaryOp) and isinstance(e.op, ast.Not):
-        r = _lambda_test(e.operand, src)
+        r = _lambda_test(m, ps, e.operand, fi)
         return None if r is None else not r
+    if isinstance(e, ast.Name):
+        e2, f2 = _resolve_name(m, ps, e, fi)
+        return None if e2 is e else _lambda_test(m, ps, e2, f2)
     if isinstance(e, ast.Compare) and len(e.ops) == 1 and isinstance(e.ops[0], (ast.Eq, ast.NotEq)):
         sides = [e.left, e.comparators[0]]
         const = [x for x in sides if isinstance(x, ast.Constant) and x.value == "<lambda>"]
         other = [x for x in sides if not (isinstance(x, ast.Constant) and x.value == "<lambda>")]
         if len(const) == 1 and len(other) == 1:
-            o = other[0]
-            name_of = (isinstance(o, ast.Attribute) and o.attr == "__name__" and isinstance(o.value, ast.Name) and o.value.id == src) or (
-                isinstance(o, ast.Call) and isinstance(o.func, ast.Name) and o.func.id == "getattr" and len(o.args) >= 2 and isinstance(o.args[0], ast.Name) and o.args[0].id == src and isinstance(o.args[1], ast.Constant) and o.args[1].value == "__name__"
-            )
-            if name_of:
-                return isinstance(e.ops[0], ast.Eq)
+            o, fo = _resolve_name(m, ps, other[0], fi)
+            subj = None
+            if isinstance(o, ast.Attribute) and o.attr == "__name__":
+                subj = o.value
+            elif isinstance(o, ast.Call) and isinstance(o.func, ast.Name) and o.func.id == "getattr" and len(o.args) >= 2 and isinstance(o.args[1], ast.Constant) and o.args[1].value == "__name__":
+                subj = o.args[0]
+            if subj is not None:
+                sv, fs = _resolve_name(m, ps, subj, fo)
+                if isinstance(sv, ast.Name) and fs is ps and sv.id == src:
+                    return isinstance(e.ops[0], ast.Eq)
     return None
 
 
 def _check_kind(run: Run, m, ctx, ps, srcp) -> None:
     """R7. A lambda written on the line of a one-line `def` (def make(): return ds.Select(lambda x: ..)) or after a
     decorator is not that def: the keyword list handed to the token search may contain 'def' only where the
-    callable is known not to be a lambda. Decided where the list literal is written: the facts holding there
-    (enclosing if / conditional expression, flag variables expanded to their definitions)."""
-    from ..lib import unit
+    callable is known not to be a lambda. Decided where the list literal is written - in the scan or a private
+    helper of it: the facts holding there (enclosing if / conditional expression, flags and helper parameters
+    traced to their definitions, caller-context facts)."""
+    from ..lib import expand_atoms, unit
+    from ..model import ancestors as _anc
 
-    src = srcp[1]
-    fa = ctx.analysis(ps)
+    fns = unit(m, ps)
     lits = []
-    for f_ in unit(m, ps):
+    for f_ in fns:
         for n in own_nodes(f_):
             if isinstance(n, (ast.List, ast.Tuple, ast.Set)) and isinstance(getattr(n, "ctx", ast.Load()), ast.Load) and any(isinstance(e, ast.Constant) and e.value == "def" for e in n.elts):
                 lits.append((f_, n))
     # does the scan tell the two kinds of callable apart anywhere?
-    distinguishes = any(_lambda_test(n, src) is not None for f_ in unit(m, ps) for n in own_nodes(f_) if isinstance(n, (ast.Compare, ast.UnaryOp)))
+    distinguishes = any(_lambda_test(m, ps, n, f_) is not None for f_ in fns for n in own_nodes(f_) if isinstance(n, (ast.Compare, ast.UnaryOp)))
     n_seen = 0
     for f_, lit in lits:
-        if f_ is not ps:
-            raise AnalysisError(f"keyword list with 'def' is built in helper {f_.name}: cannot relate it to the callable")
         n_seen += 1
+        fa = ctx.analysis(f_)
         atoms = list(Facts(fa, lit).atoms)
         # a conditional expression around the literal contributes its own test
-        from ..model import ancestors as _anc
-
         child = lit
         for a in _anc(lit):
             if isinstance(a, ast.IfExp) and child is not a.test:
@@ -312,12 +345,12 @@ def _check_kind(run: Run, m, ctx, ps, srcp) -> None:
             if isinstance(a, ast.stmt):
                 break
             child = a
-        from ..lib import expand_atoms
-
         atoms = expand_atoms(fa, atoms)
         verdicts = []
         for a, pol in atoms:
-            r = _lambda_test(a, src)
+            r = _lambda_test(m, ps, a, f_)
+            if r is None and f_ is not ps:
+                r = _lambda_test(m, ps, a, ps)  # caller-context facts are written in the caller's names
             if r is not None:
                 verdicts.append(r == pol)  # True: "is a lambda" holds here
         not_lambda = any(v is False for v in verdicts)
@@ -326,7 +359,7 @@ def _check_kind(run: Run, m, ctx, ps, srcp) -> None:
         run.check(
             not_lambda,
             "C03.R7",
-            ps,
+            f_,
             stmt_of(lit),
             "'def' is a start keyword only for callables that are not lambdas",
             f"the token search looks for {ast.unparse(lit)} whatever the callable is: for a lambda written on the line of a one-line def (def make(): return ds.Select(lambda x: x + 1)) or after a decorator the `def` is found first and the enclosing function is rewritten and recorded instead of the lambda - silently",
